@@ -14,7 +14,7 @@ CONSTANTS
   NSlices = 1
   Slice = 0
   MaxP = 1
-  MaxE = 2
+  MaxE = 1
   Deviations = {"ExceptionAsScore67", "LaterPatternReplacesException", "ExceptionsSplitOnLinesOnly"}
   PatTexts <- MCPatTexts
   ExcTexts <- MCExcTextsA
